@@ -330,6 +330,11 @@ def EA.isIncDec : EA → Bool
 /-- does data register `i` (of size `sz`) overlap address register `n`? -/
 def overlaps (i : BitVec 4) (n : BitVec 3) : Bool := lo3 i == n
 
+/-- do the four bytes at `a` and the four bytes at `b` share an address?  (A stack frame pushed onto the vector that
+    is read by the same instruction: the manual does not say which happens first — left open, tag `overlap`.) -/
+def overlap4 (a b : BitVec 24) : Bool :=
+  (List.range 4).any fun i => (List.range 4).any fun j => (a.toNat + i) % 2 ^ 24 == (b.toNat + j) % 2 ^ 24
+
 /-- push a 32-bit frame: SP := SP − 4 (full 32 bits), frame at the low 24 bits of the new SP -/
 def push32 (s : Cpu) (v : BitVec 32) : Cpu × BitVec 24 :=
   let sp := getER s.regs 7 - 4
@@ -502,7 +507,8 @@ def exec (f : Form) (i : Instr) (pc0 : BitVec 32) (len : Nat) (s : Cpu) : StepRe
     | .abs24 a => fin { s1 with pc := z24 a } 0 (z24 fa) 0 tags dc
     | .memind aa =>
       let va : BitVec 24 := aa.setWidth 24
-      fin { s1 with pc := low24 (loadBE s.bus va 4) } 0 (z24 fa) (z24 va) (tags ++ accessTags va 4 false) dc
+      fin { s1 with pc := low24 (loadBE s.bus va 4) } 0 (z24 fa) (z24 va)
+        (tags ++ accessTags va 4 false ++ (if overlap4 fa va then ["overlap"] else [])) dc
   | .bsr disp =>
     let (s1, fa) := push32 s next
     let t := next + disp
@@ -528,7 +534,7 @@ def exec (f : Form) (i : Instr) (pc0 : BitVec 32) (len : Nat) (s : Cpu) : StepRe
       let va : BitVec 24 := BitVec.ofNat 24 (0x20 + 4 * n.toNat)
       let tgt := low24 (loadBE s.bus va 4)
       fin { s1 with pc := tgt, ccr := setFlag s.ccr bI true } 0 (z24 fa) (z24 va)
-        (accessTags fa 4 true ++ accessTags va 4 false) ["ui"]
+        (accessTags fa 4 true ++ accessTags va 4 false ++ (if overlap4 fa va then ["overlap"] else [])) ["ui"]
   | .stcB rd => fin { s with regs := setR8 s.regs rd s.ccr, pc := next } 0 0 0 [] []
   | .stcW ea =>
     let a := eaOf .W s.regs ea
@@ -545,7 +551,7 @@ def interruptEntry (s : Cpu) (v : BitVec 8) : Eff :=
   let va : BitVec 24 := BitVec.ofNat 24 (4 * v.toNat)
   let tgt := low24 (loadBE s.bus va 4)
   { cpu := { s1 with pc := tgt, ccr := setFlag s.ccr bI true },
-    tags := accessTags fa 4 true ++ accessTags va 4 false, dc := ["ui"] }
+    tags := accessTags fa 4 true ++ accessTags va 4 false ++ (if overlap4 fa va then ["overlap"] else []), dc := ["ui"] }
 
 /-- Instruction boundary (C10): the oldest pending request is accepted iff CCR.I is clear. -/
 def boundary (s : Cpu) : Option (BitVec 8 × Eff) :=
